@@ -6,6 +6,9 @@ from fractions import Fraction
 from harness.driver import call_impl, cz, cnat, cbool, clist, copt, cres
 
 ID = 'C17'
+# oracle() evaluates every clause of C17 on the implementation's own output, so it decides the property
+# on a case; the model is finer (it also fixes the order of the random draws)
+ORACLE_DECIDES = True
 COQ_IMPORTS = ('From CPL Require Import Model.Base Model.RuleTables Corr.C17.\n'
                'From Coq Require Import QArith.\nOpen Scope Z_scope.')
 NONTRIVIAL_RULE = ('k in 2..5 (plus the rejected k = 0, 1 and out-of-range q), r in 0..2, all four flag combinations, q given and '
